@@ -18,7 +18,7 @@ DEFAULTS = dict(entry='jaccard_join', filter=None, measure=None, nl=2, nr=2, k=2
                 out_sim_score=[True], n_jobs=[1], out_attrs=[(None, None)],
                 col_orders=[None], index_labels=[None], props=None, validate_every=0,
                 l_out_prefix='l_', r_out_prefix='r_', kind='join', cpu_count=None,
-                extra=('x', 'y'))
+                extra=('x', 'y'), r_key='id', extra_none=[False])
 
 _BIND = None
 _COUNTER = [0]
@@ -47,12 +47,15 @@ def make(cfg_in):
         col_order = _opt(c, 'colorder', cfg['col_orders'])
         idx = _opt(c, 'index', cfg['index_labels'])
         bag = cfg['bag'] and not tok_mode
+        xnone = _opt(c, 'extranone', cfg['extra_none'])
         Lt = scenario.build_table(c, 'L', cfg['nl'], cfg['k'], cfg['kmin'], cfg['missing'], bag,
                                   cfg['nonempty'], col_order[0] if col_order else None,
-                                  index=list(idx[0])[:cfg['nl']] if idx else None, extra=cfg['extra'])
+                                  index=list(idx[0])[:cfg['nl']] if idx else None, extra=cfg['extra'],
+                                  extra_none=xnone)
         Rt = scenario.build_table(c, 'R', cfg['nr'], cfg['k'], cfg['kmin'], cfg['missing'], bag,
                                   cfg['nonempty'], col_order[1] if col_order else None,
-                                  index=list(idx[1])[:cfg['nr']] if idx else None, extra=cfg['extra'])
+                                  index=list(idx[1])[:cfg['nr']] if idx else None, extra=cfg['extra'],
+                                  key_name=cfg['r_key'], extra_none=xnone)
         lo, ro = _opt(c, 'outattrs', cfg['out_attrs'])
         s = dict(entry=entry, filter=cfg['filter'], measure=measure, kind=cfg['kind'],
                  threshold=_opt(c, 'thr', cfg['thresholds']),
@@ -61,9 +64,9 @@ def make(cfg_in):
                  allow_missing=_opt(c, 'am', cfg['allow_missing']),
                  out_sim_score=_opt(c, 'oss', cfg['out_sim_score']),
                  n_jobs=_opt(c, 'nj', cfg['n_jobs']),
-                 l_key='id', r_key='id', l_attr='attr', r_attr='attr',
+                 l_key='id', r_key=cfg['r_key'], l_attr='attr', r_attr='attr',
                  l_out_attrs=list(lo) if lo is not None else None,
-                 r_out_attrs=list(ro) if ro is not None else None,
+                 r_out_attrs=[cfg['r_key'] if x == 'id' else x for x in ro] if ro is not None else None,
                  l_out_prefix=cfg['l_out_prefix'], r_out_prefix=cfg['r_out_prefix'],
                  tok_return_set=tok_mode)
         if entry == 'filter_tables' and cfg['filter'] != 'OverlapFilter':
